@@ -64,7 +64,11 @@ VerdictDfxpRT(rec) ==
 \* language options: rec.want = the cues of the named language, rec.got = what came out,
 \* rec.gotlangs = languages present in the output / result
 VerdictOption(rec) ==
-  IF ~rec.ok THEN "OptionFailed"
+  \* a name the set does not contain selects nothing (refusing it is as good): cues of a language
+  \* that merely resembles the name (a prefix of its code) are not "exactly the named language"
+  IF "absent" \in DOMAIN rec /\ rec.absent
+    THEN (IF rec.ok /\ rec.got # <<>> THEN "OptionSelectedALanguageNotNamed" ELSE "ok")
+  ELSE IF ~rec.ok THEN "OptionFailed"
   ELSE IF rec.gotlangs # <<rec.name>> THEN "OptionDidNotSelectExactlyTheNamedLanguage"
   ELSE IF rec.got # rec.want THEN "OptionSelectedOtherCues"
   ELSE "ok"
